@@ -108,13 +108,17 @@ def pycode_dir(fresh=False):
     th = tree_hash()
     out = os.path.join(cache_root, th)
     if os.path.exists(os.path.join(out, '.done')):
+        try:
+            os.utime(out)          # a cache that is in use is not stale
+        except OSError:
+            pass
         return os.path.join(out, 'pycode')
     # prune stale caches (other tree hashes) to keep disk use bounded
     for n in os.listdir(cache_root):
         p = os.path.join(cache_root, n)
         if n != th and not n.startswith('tmp') and os.path.isdir(p):
             try:
-                if time.time() - os.path.getmtime(p) > 600:
+                if time.time() - os.path.getmtime(p) > 3600:
                     shutil.rmtree(p, ignore_errors=True)
             except OSError:
                 pass
